@@ -18,11 +18,12 @@ structure Side (s s' : St) : Prop where
   cb : s'.canBreak = s.canBreak
   cct : s'.canContinue = s.canContinue
   sd : s'.switchDepth = s.switchDepth
+  bok : BOk s → BOk s'
 
-theorem Side.refl (s : St) : Side s s := ⟨rfl, rfl, rfl, rfl, rfl, rfl, rfl⟩
+theorem Side.refl (s : St) : Side s s := ⟨rfl, rfl, rfl, rfl, rfl, rfl, rfl, fun h => h⟩
 theorem Side.trans {a b c : St} (h1 : Side a b) (h2 : Side b c) : Side a c :=
   ⟨h2.cnt.trans h1.cnt, h2.len.trans h1.len, h2.nb.trans h1.nb, h2.nc.trans h1.nc, h2.cb.trans h1.cb,
-    h2.cct.trans h1.cct, h2.sd.trans h1.sd⟩
+    h2.cct.trans h1.cct, h2.sd.trans h1.sd, fun h => h2.bok (h1.bok h)⟩
 
 theorem trackStack_fields (s : St) (e : Bool) (o : Int) :
     (s.trackStack e o).prev = s.prev ∧ (s.trackStack e o).prevPos = s.prevPos ∧ (s.trackStack e o).counting = s.counting ∧
@@ -40,12 +41,16 @@ theorem pushed_fields (s : St) (hw : WOk s) (e : Bool) (op : Nat) (o : Int) :
     (s.pushed e op o).info = s.info ∧ (s.pushed e op o).progLen = s.progLen ∧ (s.pushed e op o).nBrk = s.nBrk ∧
     (s.pushed e op o).nCont = s.nCont ∧ (s.pushed e op o).canBreak = s.canBreak ∧
     (s.pushed e op o).canContinue = s.canContinue ∧ (s.pushed e op o).switchDepth = s.switchDepth ∧
-    (s.pushed e op o).pos = s.pos ∧ (s.pushed e op o).gross = s.gross ∧ (s.pushed e op o).dev = s.dev := by
+    (s.pushed e op o).pos = s.pos ∧ (s.pushed e op o).gross = s.gross ∧ (s.pushed e op o).dev = s.dev ∧
+    (BOk s → BOk (s.pushed e op o)) := by
   obtain ⟨t1, t2, t3, t4, t5, t6, t7, t8, t9, t10, t11, t12, t13⟩ := trackStack_fields s e o
   have hwt : WOk (s.trackStack e o) := ⟨by rw [t1]; exact hw.size, by rw [t2]; exact hw.pos⟩
-  refine ⟨accumulate_ok _ hwt _ _, ?_, t3, t4, t5, t6, t7, t8, t9, t10, t11, t12, t13⟩
-  unfold St.pushed
-  rw [ent_accumulate_zero _ hwt]
+  refine ⟨accumulate_ok _ hwt _ _, ?_, t3, t4, t5, t6, t7, t8, t9, t10, t11, t12, t13, ?_⟩
+  · unfold St.pushed
+    rw [ent_accumulate_zero _ hwt]
+  · intro hb
+    unfold St.pushed St.trackStack
+    cases e <;> exact ⟨hb.rsize, hb.rcur, hb.bsize⟩
 
 theorem emitOp_unfold (s : St) (op : Nat) :
     s.emitOp op = match opStack? (op % 256) with
@@ -79,7 +84,7 @@ theorem emitOp_count {c c1 : St} (hc : c.counting = true) (hw : WOk c) (op : Nat
     | some e =>
       rw [hE] at hx
       simp only [] at hx
-      obtain ⟨q1, q2, q3, q4, q5, q6, q7, q8, q9, q10, q11, q12, q13⟩ := pushed_fields c hw e (op % 256) off
+      obtain ⟨q1, q2, q3, q4, q5, q6, q7, q8, q9, q10, q11, q12, q13, q14⟩ := pushed_fields c hw e (op % 256) off
       rw [write_counting _ _ (q3.trans hc)] at hx
       injection hx with hx
       subst hx
@@ -88,7 +93,9 @@ theorem emitOp_count {c c1 : St} (hc : c.counting = true) (hw : WOk c) (op : Nat
           info := { (c.pushed e (op % 256) off).info with
             progLength := (c.pushed e (op % 256) off).info.progLength + [op % 256].length } }
       refine ⟨⟨by rw [r4]; exact q3, ?_, by rw [r5]; exact q6, by rw [r6]; exact q7, by rw [r7]; exact q8,
-        by rw [r8]; exact q9, by rw [r9]; exact q10⟩, ?_, ⟨by rw [r1]; exact q1.size, by rw [r2]; exact q1.pos⟩, ?_⟩
+        by rw [r8]; exact q9, by rw [r9]; exact q10,
+        fun hb => ringWrite_bok _ _ (by have := q14 hb; exact ⟨this.rsize, this.rcur, this.bsize⟩)⟩, ?_,
+        ⟨by rw [r1]; exact q1.size, by rw [r2]; exact q1.pos⟩, ?_⟩
       · have : ∀ (bs : List Nat) (t : St), (t.ringWrite bs).progLen = t.progLen := by
           intro bs; induction bs with
           | nil => intro t; rfl
@@ -117,9 +124,11 @@ theorem emitOp_prog {p : St} (hp : p.counting = false) (hw : WOk p) (op : Nat) (
       | none => simp [ECO]
       | some e =>
         simp only []
-        obtain ⟨q1, q2, q3, q4, q5, q6, q7, q8, q9, q10, q11, q12, q13⟩ := pushed_fields p hw e (op % 256) off
+        obtain ⟨q1, q2, q3, q4, q5, q6, q7, q8, q9, q10, q11, q12, q13, q14⟩ := pushed_fields p hw e (op % 256) off
         rw [write_program _ _ (q3.trans hp), if_neg (by simp [q11, q5]; omega), wp_ok]
-        refine ⟨⟨q3, q5, q6, q7, q8, q9, q10⟩, by simp [q12], by simp [q11], ⟨q1.size, q1.pos⟩, ?_⟩
+        refine ⟨⟨q3, q5, q6, q7, q8, q9, q10,
+          fun hb => by have := q14 hb; exact ⟨this.rsize, this.rcur, by simp only [foldSet_size]; exact this.bsize⟩⟩,
+          by simp [q12], by simp [q11], ⟨q1.size, q1.pos⟩, ?_⟩
         show (ent (p.pushed e (op % 256) off) 0).op = op % 256
         rw [q2, Nat.mod_mod]
 
@@ -143,7 +152,8 @@ theorem absorb_count {c c1 : St} (hc : c.counting = true) (hw : WOk c) (hx : c.a
     simp only [ok_bind] at hx
     injection hx with hx
     subst hx
-    exact ⟨⟨rfl, rfl, rfl, rfl, rfl, rfl, rfl⟩, rfl, ⟨hw.size, by simp only; split <;> have := hw.pos <;> omega⟩⟩
+    exact ⟨⟨rfl, rfl, rfl, rfl, rfl, rfl, rfl, fun hb => ⟨hb.rsize, by simp only [ringSize_eq]; omega, hb.bsize⟩⟩, rfl,
+      ⟨hw.size, by simp only; split <;> have := hw.pos <;> omega⟩⟩
 
 /-- `AbsorbPrevOpcode` of a `LOAD_x_VAR` in the program manager -/
 theorem absorb_prog {p : St} (hp : p.counting = false) (hw : WOk p) (b : Nat) (hb : b ≤ 6)
@@ -159,7 +169,8 @@ theorem absorb_prog {p : St} (hp : p.counting = false) (hw : WOk p) (b : Nat) (h
   · rename_i hk
     simp only [] at hk
     rw [ok_bind, wp_ok]
-    exact ⟨⟨rfl, rfl, rfl, rfl, rfl, rfl, rfl⟩, rfl, by simp only; omega, ⟨hw.size, by simp only; split <;> have := hw.pos <;> omega⟩⟩
+    exact ⟨⟨rfl, rfl, rfl, rfl, rfl, rfl, rfl, fun hb => ⟨hb.rsize, hb.rcur, hb.bsize⟩⟩, rfl, by simp only; omega,
+      ⟨hw.size, by simp only; split <;> have := hw.pos <;> omega⟩⟩
 
 theorem untested_storevar (b : Nat) (hb : b ≤ 6) :
     tested ((OP_STORE_GAME_VAR + b) % 256) = false ∧ tested ((OP_LOAD_STORE_GAME_VAR + b) % 256) = false := by
@@ -203,7 +214,9 @@ theorem gameVar_count {c c' : St} (hc : c.counting = true) (hw : WOk c) (b i pi 
         | nil => intro t; rfl
         | cons x bs ih => intro t; unfold St.ringWrite; rw [ih]
       refine ⟨⟨by rw [r4]; exact s1.cnt, by rw [hlen]; exact s1.len, by rw [r5]; exact s1.nb, by rw [r6]; exact s1.nc,
-        by rw [r7]; exact s1.cb, by rw [r8]; exact s1.cct, by rw [r9]; exact s1.sd⟩, ?_, ⟨by rw [r1]; exact w1.size, by rw [r2]; exact w1.pos⟩, ?_⟩
+        by rw [r7]; exact s1.cb, by rw [r8]; exact s1.cct, by rw [r9]; exact s1.sd,
+        fun hb => ringWrite_bok _ _ (by have := s1.bok hb; exact ⟨this.rsize, this.rcur, this.bsize⟩)⟩, ?_,
+        ⟨by rw [r1]; exact w1.size, by rw [r2]; exact w1.pos⟩, ?_⟩
       · have hri : ∀ t : St, (t.ringWrite (le 4 i ++ le 4 ev)).info = t.info := fun t => (ringWrite_fields _ t).2.2.1
         simp only [pl] at p1 ⊢; rw [hri]; simp; omega
       · have he : ∀ t : St, ent (t.ringWrite (le 4 i ++ le 4 ev)) 0 = ent t 0 := fun t => by
@@ -228,7 +241,8 @@ theorem gameVar_count {c c' : St} (hc : c.counting = true) (hw : WOk c) (b i pi 
         have hcc : c2.counting = true := (s2.cnt.trans s1.cnt).trans hc
         unfold St.moveFwd
         rw [if_pos hcc]
-        refine ⟨(s1.trans s2).trans ⟨rfl, rfl, rfl, rfl, rfl, rfl, rfl⟩, ?_, ⟨w2.size, w2.pos⟩, ?_⟩
+        refine ⟨(s1.trans s2).trans ⟨rfl, rfl, rfl, rfl, rfl, rfl, rfl, fun hb => ⟨hb.rsize, by simp only [ringSize_eq]; omega, hb.bsize⟩⟩,
+          ?_, ⟨w2.size, w2.pos⟩, ?_⟩
         · simp only [pl] at p1 p2 ⊢; omega
         · show tested (ent c2 0).op = false
           rw [t2]; exact hu2
@@ -247,7 +261,9 @@ theorem gameVar_prog {p : St} (hp : p.counting = false) (hw : WOk p) (b i pi ev 
     refine wp_mono (emitOp_prog hp hw _ (by omega)) ?_ (fun _ h => h)
     intro p1 ⟨s1, g1, q1, w1, t1⟩
     rw [write_program _ _ (s1.cnt.trans hp), if_neg (by simp [s1.len]; omega), wp_ok]
-    refine ⟨⟨s1.cnt, s1.len, s1.nb, s1.nc, s1.cb, s1.cct, s1.sd⟩, by simp [g1], by simp [q1], ⟨w1.size, w1.pos⟩, ?_⟩
+    refine ⟨⟨s1.cnt, s1.len, s1.nb, s1.nc, s1.cb, s1.cct, s1.sd,
+      fun hb => by have := s1.bok hb; exact ⟨this.rsize, this.rcur, by simp only [foldSet_size]; exact this.bsize⟩⟩,
+      by simp [g1], by simp [q1], ⟨w1.size, w1.pos⟩, ?_⟩
     simp only [ent] at t1 ⊢
     rw [t1]; exact hu1
   · rename_i hcond
@@ -265,7 +281,8 @@ theorem gameVar_prog {p : St} (hp : p.counting = false) (hw : WOk p) (b i pi ev 
     rw [wp_ok]
     unfold St.moveFwd
     rw [if_neg (by simp [hpc])]
-    refine ⟨(s1.trans s2).trans ⟨rfl, rfl, rfl, rfl, rfl, rfl, rfl⟩, by simp only; omega, by simp only; omega, ⟨w2.size, w2.pos⟩, ?_⟩
+    refine ⟨(s1.trans s2).trans ⟨rfl, rfl, rfl, rfl, rfl, rfl, rfl, fun hb => ⟨hb.rsize, hb.rcur, hb.bsize⟩⟩,
+      by simp only; omega, by simp only; omega, ⟨w2.size, w2.pos⟩, ?_⟩
     simp only [ent] at t2 ⊢
     rw [t2]; exact hu2
 
@@ -277,7 +294,7 @@ theorem J_gameVar {L : Nat} {c p : St} (h : Rel L c p) (b i1 pi1 i2 pi2 ev : Nat
   have hg := h.gross; have hpos := h.pos; have hlen := h.len
   refine wp_mono (gameVar_prog h.pc h.w.vp b i2 pi2 ev hb (by omega)) ?_ (fun _ h => h)
   intro p' ⟨sp, gp, qp, wp', tp⟩
-  exact ⟨sc.cnt.trans h.cc, sp.cnt.trans h.pc, W.of_untested wc wp' tc tp, by omega, by omega, sp.len.trans h.len,
+  exact ⟨sc.cnt.trans h.cc, sp.cnt.trans h.pc, W.of_untested wc wp' (sc.bok h.w.bc) (sp.bok h.w.bp) tc tp, by omega, by omega, sp.len.trans h.len,
     (sc.nb.trans h.nb).trans sp.nb.symm, (sc.nc.trans h.nc).trans sp.nc.symm, (sc.cb.trans h.cb).trans sp.cb.symm,
     (sc.cct.trans h.cct).trans sp.cct.symm, (sc.sd.trans h.sd).trans sp.sd.symm⟩
 
